@@ -30,7 +30,7 @@ def mc_cfg(prop, depth, *, workers=3, ids=4, restart=False, wait=False, switches
            killers=None, reconnect=False, invs=None, props=None, tmos="{1, 100}", prios="{0, 1}", maxtime=3):
     W = ["w%d" % i for i in range(1, workers + 1)]
     C = ["c1", "c2"]
-    J = ["a", "b", "c", "d"][:ids]
+    J = ["a", "b", "c", "d"][:ids]          # model values in the MC configs (strings=False)
     K = ["k1"] if wait else []
     mvs = W + C + J + K
     cfg = "SPECIFICATION Spec\nCONSTANTS\n  " + "\n  ".join("%s = %s" % (m, m) for m in mvs) + "\n"
@@ -227,6 +227,10 @@ def run(ctx, prop):
     qsreplay.replay_behaviours(ctx, prop, quick)
     if prop == "C16":
         rpc_framing(ctx)
+    if prop == "C17":
+        # beyond the listed property: the client / worker side of the protocol (Slave.tla, RpcClient.tla)
+        from . import qsclient
+        qsclient.run(ctx, quick)
     ctx.set_cover(phase_seconds={"model_check": round(t1 - t0, 1), "trace_validation": round(t2 - t1, 1),
                                  "replay": round(time.time() - t2, 1)})
     ctx.assume("gevent hub callbacks run FIFO (the driver's batches rely on it; asserted by the replay comparison)",
